@@ -28,7 +28,129 @@ def run(ctx):
         runs.monitor_batch(ctx, PID, ctx.size(250, 3000), force=FORCE),
         _contracted(ctx),
         engine.slice_engine(ctx, ctx.rng(81), ctx.size(250, 3000), only="C11/"),
+        fault_chain(ctx, ctx.size(40, 500)),
     ]
+
+
+class InjectedFault(Exception):
+    """raised by the objective at a chosen call made inside run_metaepoch"""
+
+
+class LoggingFaulty(runs.CountingObjective):
+    holder = None
+
+    def __call__(self, x):
+        h = self.holder
+        if h["in_me"]:
+            h["left"] -= 1
+            if h["left"] == 0:
+                h["faults"] += 1
+                raise InjectedFault("objective failed")
+        v = super().__call__(x)
+        h["log"].append((tuple(float(t) for t in x), float(v)))
+        return v
+
+
+def _fault_chain_worker(args):
+    """the objective fails once or twice in the middle of a metaepoch (2nd or later generation included); the
+    caller survives and goes on stepping.  Afterwards every recorded generation must still be bred from the
+    recorded generation before it: a member is a member of that generation, or was evaluated after it was complete."""
+    spec, first, second = args
+    import pyhms.tree as T
+    from pyhms.config import TreeConfig
+
+    from ..common import RunTimeout, is_env_crash, run_limit
+
+    holder = {"in_me": False, "left": first, "faults": 0, "log": []}
+    found = []
+    try:
+        with run_limit():
+            o = runs.build(spec, None, plain="callable")
+            for r in o["recs"]:
+                r.__class__ = LoggingFaulty
+                r.holder = holder
+            opts = {"random_seed": spec["seed"], "hibernation": spec["hibernation"]}
+            tree = T.DemeTree(TreeConfig(o["levels"], o["gsc"], o["sm"], options=opts, config_class_to_deme_class=o["custom"]))
+            orig = tree.run_metaepoch
+
+            def rm():
+                holder["in_me"] = True
+                try:
+                    return orig()
+                finally:
+                    holder["in_me"] = False
+
+            tree.run_metaepoch = rm
+            steps = 0
+            while steps < spec["max_steps"]:
+                try:
+                    if tree._gsc(tree):
+                        break
+                    tree.run_step()
+                except InjectedFault:
+                    holder["in_me"] = False
+                    if holder["faults"] == 1:
+                        holder["left"] = second
+                steps += 1
+            when = {}
+            for k, e in enumerate(holder["log"]):
+                when.setdefault(e, []).append(k)
+            for _, d in tree.all_demes:
+                if type(d).__name__ not in ("EADeme", "DEDeme", "SHADEDeme", "UserEADeme", "UserDEDeme"):
+                    continue
+                hist = [[(tuple(float(t) for t in i.genome), float(i.fitness)) for i in g] for g in d.history]
+                for j in range(1, len(hist)):
+                    a, b = hist[j - 1], hist[j]
+                    ta = [when[x][0] for x in a if x in when]
+                    if not ta:
+                        continue
+                    done = max(ta)  # the generation before was complete no earlier than this call
+                    aset = set(a)
+                    for x in b:
+                        if x in aset:
+                            continue
+                        if x not in when or when[x][-1] <= done:
+                            found.append(f"deme {d.id} ({type(d).__name__}), recorded generation {j}: the individual {x} is not a member of recorded generation {j - 1} and was not evaluated after that generation was complete ({holder['faults']} injected fault(s) in the run)")
+                            break
+                    if found:
+                        break
+                if found:
+                    break
+    except RunTimeout as e:
+        return {"status": "env", "detail": str(e)}
+    except Exception as e:  # noqa: BLE001
+        return {"status": "env" if (is_env_crash(e) or holder["faults"]) else "crash", "detail": f"{type(e).__name__}: {e}", "found": found, "faults": holder["faults"]}
+    return {"status": "ok", "found": found, "faults": holder["faults"]}
+
+
+def fault_chain(ctx, n):
+    from ..common import Slice, pmap
+
+    sl = Slice("objective fails in the middle of a metaepoch; the run goes on (every recorded generation bred from the recorded one before it)")
+    n = ctx.boost(n) if hasattr(ctx, "boost") else n
+    rng = ctx.rng(67)
+    args = []
+    pop = ["sea", "de", "shade", "ded", "seax", "xde"]
+    for _ in range(n):
+        spec = runs.rand_spec(rng, nlev=int(rng.choice([1, 1, 2])), engines={0: pop, 1: pop}, min_generations=2, objective=str(rng.choice(["four", "sphere"])),
+                              gsc={"kind": "MetaepochLimit", "limit": 7}, max_steps=7, cutoff=None, precision_wrapper=None, use_cache=False)
+        args.append((spec, int(rng.integers(3, 60)), int(rng.integers(3, 60))))
+    for (spec, a, b), r in zip(args, pmap(_fault_chain_worker, args, chunksize=2)):
+        for m in r.get("found", []):
+            sl.violations.append({"signature": "C11/chain-broken-after-a-failed-metaepoch", "detail": m, "replay": {"spec": spec, "faults_at": [a, b]}})
+        if r["status"] == "env":
+            sl.skipped += 1
+            continue
+        if r["status"] == "crash":
+            sl.violations.append({"signature": "C11/run-crashed", "detail": r["detail"], "replay": {"spec": spec}})
+            continue
+        sl.cases += 1
+        sl.count(f"faults:{r['faults']}")
+        if r["faults"]:
+            sl.nontrivial.add(runs.spec_id(spec))
+    if args:
+        sl.sample(runs.describe(args[0][0]))
+    return sl
 
 
 def _contracted(ctx):
